@@ -505,6 +505,9 @@ func runSched(col *Collector, focus, tier string, seed int64) {
 			sharedTaskHistoryCase(col, v)
 		}
 	}
+	if focus == "C02" {
+		c02RealConfigCases(col)
+	}
 	if focus == "C03" {
 		reps := 400
 		if tier == "thorough" {
